@@ -146,6 +146,53 @@ class Gen2(M.Gen):
             r.randint = saved
 
 
+def limit_cases(rng, thorough):
+    """while loops in unscheduled code that reach the iteration limit L (configuration max_loop_iterations_in_unscheduled, 10000 unless
+    the host sets it): a round is one evaluation of the condition followed by one run of the body; the loop is left after the L-th
+    round and yields what its last body yielded. The condition counts and reports its evaluations (a side effect), the body reports
+    its runs; K is where the condition turns false by itself (K >= L: the limit cuts the loop).
+    -> (program, L, expected markers, expected value or None when the reference semantics is asked instead)"""
+    out = []
+    Ls = [1, 2, 3, 5, 8] + ([13, 64, 10000] if thorough else [10000])
+    for L in Ls:
+        for K in sorted(set([L - 1, L, L + 1, L + 7, 99999]) - set([0, -1])):
+            if L == 10000 and K not in (L, 99999):
+                continue
+            for shape in ("plain", "bodyless", "call", "foreach", "twice"):
+                cond = Code(Asg("_c", Bin("+", Var("_c"), N(1))), E(Un("diag_log", Var("_c"))), E(Bin("<=", Var("_c"), N(K))))
+                body = Code() if shape == "bodyless" else Code(E(Un("diag_log", Un("-", Var("_c")))), E(Bin("*", Var("_c"), N(2))))
+                loop = Bin("do", Un("while", cond), body)
+                rounds = min(K, L)
+                evals = rounds if K >= L else K + 1
+                one = []
+                for i in range(1, rounds + 1):
+                    one.append(str(i))
+                    if shape != "bodyless":
+                        one.append(str(-i))
+                if evals > rounds:
+                    one.append(str(evals))
+                cut = K >= L
+                val = (str(2 * rounds) if shape != "bodyless" else None) if cut else None
+                if shape in ("plain", "bodyless"):
+                    prog, marks = Prog(Asg("_c", N(0)), E(loop)), one
+                elif shape == "call":
+                    prog, marks = Prog(Asg("_c", N(0)), E(Un("call", Code(E(Un("diag_log", S("in"))), E(loop))))), ["in"] + one
+                elif shape == "foreach":
+                    if L == 10000:
+                        continue
+                    prog = Prog(E(Bin("foreach", Code(Asg("_c", N(0)), E(loop)), Arr(N(1), N(2)))), E(Un("diag_log", S("end"))))
+                    marks, val = one + one + ["end"], None
+                else:
+                    if L == 10000:
+                        continue
+                    prog = Prog(Asg("_c", N(0)), E(loop), Asg("_c", N(0)), E(loop))
+                    marks = one + one
+                if shape == "bodyless" and not cut:
+                    val = None
+                out.append((prog, L, marks, val, cut))
+    return out
+
+
 def split_events(ev):
     """the event list of a final observation: 'l:c,' items and 'M<text>,' items (text may contain commas)"""
     out, i = [], 0
@@ -205,7 +252,8 @@ def main(replay=None):
     g = Gen2(rng)
     cases = []
     if replay:
-        cases.append(("replay", json.load(open(replay))["replay"]["prog"]))
+        if "limit" not in json.load(open(replay))["replay"]:
+            cases.append(("replay", json.load(open(replay))["replay"]["prog"]))
     else:
         cdir = os.path.join(V.VERIF, "corpus", PID)
         if os.path.isdir(cdir):
@@ -264,15 +312,67 @@ def main(replay=None):
             ndis += 1
             rep["broken"] = "correspondence VM model (VmDefs.v/VmExec.v) vs implementation: " + ",".join(diffs)
             run.violation("implementation and VM model disagree (%s); the reference semantics is met on this input" % ",".join(diffs), rep, found_input=False)
+    # ---- while loops against the iteration limit of unscheduled code (the reference semantics has no limit: a loop the limit does not
+    # cut is asked of it as well, a loop that is cut has its rounds counted here)
+    nlimit = 0
+    if not replay or "limit" in json.load(open(replay))["replay"]:
+        lcases = limit_cases(rng, thorough)
+        if replay:
+            r0 = json.load(open(replay))["replay"]
+            lcases = [(r0["prog"], r0["limit"], r0["expected_markers"], r0["expected_value"], r0["cut"])]
+        byL = {}
+        for c in lcases:
+            byL.setdefault(c[1], []).append(c)
+        for L, cs in sorted(byL.items()):
+            lres = M.run_programs(himpl, drv, [c[0] for c in cs], max_loop=L)
+            rc, lref, err = V.run_lines_parallel([rdrv], ["400000\t" + c[0] for c in cs if not c[4]], timeout=3000)
+            lref = iter(lref)
+            for (prog, L_, marks, val, cut), d in zip(cs, lres):
+                nlimit += 1
+                if d.get("text") is None:
+                    run.violation("driver failed on a limit program (machinery)", {"prog": prog}, found_input=False)
+                    continue
+                icls, imarks, ival = norm_impl(d["i_final"])
+                rep = {"kind": "limit", "prog": prog, "text": d["text"], "limit": L, "expected_markers": marks, "expected_value": val, "cut": cut,
+                       "impl_final": d["i_final"][:600] + " ... " + d["i_final"][-300:]}
+                if d["i_final"].startswith(("CRASH", "TIMEOUT", "OOM", "EXCEPTION")):
+                    run.violation("implementation crashed or hung: " + d["i_final"][:80], rep)
+                    continue
+                bad = None
+                if not cut:
+                    rcls, rmarks, rval = norm_ref(next(lref).split("\t")[-1])
+                    if rcls != "OK" or rmarks != marks:
+                        run.violation("the round counter of the check and the reference semantics disagree on a loop the limit does not cut (machinery)",
+                                      dict(rep, ref=(rcls, rmarks[:20])), found_input=False)
+                        continue
+                    val = rval if rval != "-" else None
+                if icls != "OK":
+                    bad = "outcome class %s" % icls
+                elif imarks != marks:
+                    i = next((k for k, (x, y) in enumerate(zip(imarks, marks)) if x != y), min(len(imarks), len(marks)))
+                    bad = ("the sequence of executed statements differs at event %d of %d (expected %d): implementation ...%s, expected ...%s"
+                           % (i, len(imarks), len(marks), imarks[max(0, i - 2):i + 3], marks[max(0, i - 2):i + 3]))
+                elif val is not None and ival != val:
+                    bad = "value of the loop: implementation %s, expected %s (what its last body yielded)" % (ival, val)
+                if bad:
+                    run.violation("while loop with iteration limit %d (%s): %s" % (L, "cut by the limit" if cut else "ends by itself", bad), rep)
+                    continue
+                diffs = [k for k in ("listing", "trace", "final") if d["m_" + k] != d["i_" + k]]
+                if diffs and "UNSUPPORTED" not in d["m_trace"] and "UNSUPPORTED" not in d["m_final"]:
+                    rep["broken"] = "correspondence VM model (VmDefs.v/VmExec.v) vs implementation: " + ",".join(diffs)
+                    run.violation("implementation and VM model disagree (%s) on a loop at its iteration limit" % ",".join(diffs), rep, found_input=False)
+    kinds["limit"] = nlimit
     for p in problems:
         run.violation("proof obligation not discharged: " + p, {"broken": p, "theorems": run.cov["theorems"]}, found_input=False)
-    run.cov["evaluations"] = len(cases)
+    run.cov["evaluations"] = len(cases) + nlimit
     run.cov["distinct_nontrivial"] = len(distinct)
     run.cov["rule"] = ("random programs nesting if/then/else, exitWith, while, for (incl. negative step), forEach, count/select/apply/findIf with code, "
                        "switch (fall-through, default), call, try/catch/throw, scopeName/breakOut (with and without value), lazy &&/|| to depth 2-4, "
                        "with early exits placed inside loop bodies, nested scopes and handlers; each program runs on the implementation and through "
                        "the extracted reference semantics RefSem.run_ref; compared: outcome class, the sequence of diag_log markers, the value of the "
-                       "program; non-trivial = inside the reference fragment, distinct by program text")
+                       "program; non-trivial = inside the reference fragment, distinct by program text; plus while loops against the iteration limit of "
+                       "unscheduled code (limits 1..8 and the default 10000, the condition turning false before / at / after the limit, plain, without body, "
+                       "in call, in forEach, twice in a row): rounds and evaluations of the condition counted, value = what the last body yielded")
     run.cov["input_distribution"] = kinds
     run.cov["constructs_exercised"] = constructs
     run.cov["outside_reference_fragment"] = nref_unsup
